@@ -123,11 +123,17 @@ theorem dhp_eq (c1 c2 h1 h2 : ℝ) (h : ¬ c1 = 0 ∧ ¬ c2 = 0) :
   have e2 : ¬ (Sc.feq (0.0 : ℝ) c2 = true) := by rw [real_feq]; norm_num; exact fun e => h.2 e.symm
   simp [e1, e2]
 
-theorem ciede2000_eq_sharma_of_not_wrapHigh (p q : Lab3 ℝ) (hw : ¬ WrapHigh p q) :
+theorem gray_chroma_zero (a b : ℝ) (h : a = 0 ∧ b = 0) : ScT.sqrt (powi a 2 + powi b 2) = 0 := by
+  rw [h.1, h.2, real_sqrt, powi_two]; norm_num
+
+theorem ciede2000_eq_sharma_of (p q : Lab3 ℝ)
+    (hw : (p.a = 0 ∧ p.b = 0) ∨ (q.a = 0 ∧ q.b = 0) ∨ ¬ WrapHigh p q) :
     ciede2000 p q = ciede2000Sharma p q := by
   unfold ciede2000 ciede2000Sharma
   simp only [mul_self_powi, pow25, sharmaHPrime_eq]
   simp only [WrapHigh, primedHues] at hw
+  have hg1 := gray_chroma_zero p.a p.b
+  have hg2 := gray_chroma_zero q.a q.b
   have hc1n : 0 ≤ ScT.sqrt (powi p.a 2 + powi p.b 2) := Real.sqrt_nonneg _
   have hc2n : 0 ≤ ScT.sqrt (powi q.a 2 + powi q.b 2) := Real.sqrt_nonneg _
   have hkn := kfac_nonneg ((ScT.sqrt (powi p.a 2 + powi p.b 2) + ScT.sqrt (powi q.a 2 + powi q.b 2)) / 2.0)
@@ -164,6 +170,11 @@ theorem ciede2000_eq_sharma_of_not_wrapHigh (p q : Lab3 ℝ) (hw : ¬ WrapHigh p
     have hf : ¬ (Sc.feq (cp1 * cp2) (0.0 : ℝ) = true) := by
       rw [real_feq]; norm_num
       exact ⟨fun h => hz'.1 (hz1.mpr h), fun h => hz'.2 (hz2.mpr h)⟩
+    have hw : ¬ (180 < |h1 - h2| ∧ 360 ≤ h1 + h2) := by
+      rcases hw with h | h | h
+      · exact absurd (hg1 h) hz'.1
+      · exact absurd (hg2 h) hz'.2
+      · exact h
     simp only [if_neg hf, dh_eq]
     rw [dhp_eq c1 c2 h1 h2 hz']
     simp only [hb_eq h1 h2 hw]
@@ -192,6 +203,10 @@ theorem ciede2000_eq_sharma_of_not_wrapHigh (p q : Lab3 ℝ) (hw : ¬ WrapHigh p
     generalize dl / ((1.0 : ℝ) + 15e-3 * l50 / sl) = L
     generalize (2.0 : ℝ) = two
     ring
+
+theorem ciede2000_eq_sharma_of_not_wrapHigh (p q : Lab3 ℝ) (hw : ¬ WrapHigh p q) :
+    ciede2000 p q = ciede2000Sharma p q :=
+  ciede2000_eq_sharma_of p q (Or.inr (Or.inr hw))
 
 end Pastel.SharmaEq
 
